@@ -31,6 +31,16 @@ CONFIGS = [
 FIELD_TYPES = [("u8", True), ("NE", False), ("f32", False), ("Option<NE>", False), ("Vec<u8>", True), ("T", None)]
 
 
+EXTRA = [  # (derive list, item, must compile)
+    ("PartialEq, Eq, Hash", "pub struct X { pub id: u32, #[hash(ignore)] pub w: NE }", False),
+    ("PartialEq, Eq, Hash", "pub enum X<T> { A(#[hash(ignore)] T, u8), B }", None),       # instantiated with NE: must be refused
+    ("PartialEq, Eq, Hash", "pub struct X { pub id: u32, #[hash(ignore)] pub w: u8 }", True),
+    ("PartialEq, Eq, Hash", "pub struct X { pub id: u32, #[eq(ignore)] pub w: NE }", True),
+    ("PartialEq, Eq, Hash", "pub struct X { pub id: u32, #[hash(key = key_eq(&$))] #[eq(key = key_ne(&$))] pub w: u8 }", False),
+    ("PartialEq, Eq, Hash", "pub struct X { pub id: u32, #[hash(by = hby)] #[eq(key = key_eq(&$))] pub w: NE }", True),
+]
+
+
 def programs(ctx):
     rng = random.Random(ctx.seed + 17)
     out = []
@@ -60,6 +70,15 @@ def programs(ctx):
         text = "#[derive_ex::derive_ex(Eq, PartialEq)]\n%s\n\npub fn need_eq<E: Eq>() {}\npub fn probe() { need_eq::<X%s>(); }\npub fn replay(h: &str, b: &[u8]) -> (bool, String) { (true, String::new()) }\n" % (
             item, ("<%s>" % inst) if generic else "")
         p = E.Prog("p_%04d" % i, text, [], {"describe": "%s  [component %s, must %s]" % (item, comp, "compile" if must_be_eq else "be refused")}, expect_compile=must_be_eq)
+        p.meta["generic"] = generic
+        out.append(p)
+        i += 1
+    for (lst, item, must) in EXTRA:
+        generic = "<T>" in item
+        must_c = False if must is None else must
+        text = "#[derive_ex::derive_ex(%s)]\n%s\n\npub fn hby<H: core::hash::Hasher>(_x: &NE, _h: &mut H) {}\npub fn need_eq<E: Eq>() {}\npub fn probe() { need_eq::<X%s>(); }\npub fn replay(h: &str, b: &[u8]) -> (bool, String) { (true, String::new()) }\n" % (
+            lst, item, "<NE>" if generic else "")
+        p = E.Prog("p_%04d" % i, text, [], {"describe": "derive_ex(%s) %s  [must %s]" % (lst, item, "compile" if must_c else "be refused")}, expect_compile=must_c)
         p.meta["generic"] = generic
         out.append(p)
         i += 1
